@@ -164,16 +164,16 @@ def render(items: dict[str, Any], extra: dict[str, str] | None = None) -> str:
              "namespace NauyacaVerif.Gen"]
     for k in NAT_ITEMS:
         v = items.get(k)
-        lines.append(f"def {k} : Nat := {v}" if v is not None else f"-- {k}: NOT FOUND")
+        lines.append(core.lean_item(k, "Nat", None if v is None else str(v)))
     for k in BOOL_ITEMS:
         v = items.get(k)
-        lines.append(f"def {k} : Bool := {'true' if v else 'false'}" if v is not None else f"-- {k}: NOT FOUND")
+        lines.append(core.lean_item(k, "Bool", None if v is None else ("true" if v else "false")))
     for k in NATLIST_ITEMS:
         v = items.get(k)
-        lines.append(f"def {k} : List Nat := {list(v)}" if v is not None else f"-- {k}: NOT FOUND")
+        lines.append(core.lean_item(k, "List Nat", None if v is None else str(list(v))))
     for k in STRLIST_ITEMS:
         v = items.get(k)
-        lines.append(f"def {k} : List (List Nat) := [" + ", ".join(lean_str(s) for s in v) + "]" if v is not None else f"-- {k}: NOT FOUND")
+        lines.append(core.lean_item(k, "List (List Nat)", None if v is None else "[" + ", ".join(lean_str(s) for s in v) + "]"))
     for k, v in (extra or {}).items():
         lines.append(v)
     lines.append("end NauyacaVerif.Gen")
